@@ -152,6 +152,17 @@ def rule_nest(ctx):
     b = [norm(s) for s in _strip_doc(c.node.body)]
     ok = b == [f'if {t} is None or {t} < 0.0: return', f"if {sub} is None or {t} > {sub}: raise ValueError('nested bundle time must be >= enclosing bundle time')"]
     ctx.ob('C07.nest', f'{c.fq}', ok, f'sub-time rule must refuse None or earlier children of a timed parent; found {b}', c.node, c.module)
+    # rt and nrt refuse the same nested bundles because they run the same code: no interface overrides the encoder's bundle methods
+    base = repo.cls('sc3.base._oscinterface:OscInterface')
+    subs = [k for k in repo.classes.values() if k is not base and base in repo.mro(k)]
+    ctx.require(len(subs) >= 3, 'C07.nest', f'only {len(subs)} interface classes found')
+    for k in sorted(subs, key=lambda k: k.fq):
+        for mname in ('_check_subtime', '_build_bundle', '_build_msg'):
+            r = repo.resolve_method(k, mname)
+            ctx.ob('C07.nest', f'{k.fq}.{mname}:not-overridden', r is not None and r.fq == f'{base.fq}.{mname}',
+                   f'{k.name} resolves {mname} to {r.fq if r else None}: the nested-time rule and the element handling must be the ones of '
+                   f'OscInterface for every transport, a variant that accepts what the other refuses lets a nested bundle precede its parent '
+                   f'in one mode only', (r.node if r else k.node), k.module)
     p = repo.func('sc3.base._oscinterface:OscScore._process_bndl_time')
     src = full(p.node)
     ok = 'if isinstance(element[0], (int, float, type(None))): bndl[i] = self._process_bndl_time(' in src and \
@@ -322,6 +333,9 @@ def run(ctx):
 
 
 MUTANTS = [
+    dict(rule='C07.nest', name='the nrt interface accepts None or negative nested times under a timed parent (seed C07-i)', file='sc3/base/_oscinterface.py',
+         old="        return int(time * clk.SystemClock._SECONDS_TO_OSC)\n\n    def _send(self, msg, target):\n        pass\n",
+         new="        return int(time * clk.SystemClock._SECONDS_TO_OSC)\n\n    @staticmethod\n    def _check_subtime(time, subtime):  # override\n        if subtime is None or subtime < 0.0:\n            return\n        OscInterface._check_subtime(time, subtime)\n\n    def _send(self, msg, target):\n        pass\n"),
     dict(rule='C07.nest', name='(fix reverted) a negative parent latency is compared with the child', file='sc3/base/_oscinterface.py',
          old="        if time is None or time < 0.0:\n            return  # Immediately, nothing can be before.", new="        if time is None:\n            return"),
     dict(rule='C07.nest', name='(fix reverted) score rewrites the nested bundles of the caller', file='sc3/base/_oscinterface.py',
